@@ -1,4 +1,5 @@
 from props.common import *
+import props.c06 as _c06
 
 # ------------------------------------------------------------------ C07 (message level)
 U32 = 0xFFFFFFFF
@@ -155,7 +156,11 @@ SPEC = dict(
                    "kernel; harness/generator; time.Time.Sub exactness below 292 years. Records of messages whose header counts lie "
                    "(sum >= 65536) are outside WF; for those only the all-bytes theorems apply.",
         areas=[dict(name="ttl", n_quick=150000, n_thorough=3000000, shards_thorough=8, oracle=oracle_ttl,
-                    nontrivial=nontrivial_ttl)],
+                    nontrivial=nontrivial_ttl),
+               # the history-level half (served only while fresh, fetched after the latest announced profile change, PTR never
+               # from cache): model NV.Model.Cache and theorems NV.C06.served_only_fresh_* / stored_time_doh, shared with C06
+               dict(name="cache", n_quick=1200, n_thorough=24000, shards_thorough=8, oracle=_c06.oracle_cache,
+                    nontrivial=_c06.nontrivial, timeout=2400)],
         trusted=COMMON_TRUST + ["time.Time.Add/Sub are exact for |d| < 2^62 ns (used to place `now`)",
                                 "python oracle nvcheck/props/c07.py (independent reading of the RR layout)"],
         assumptions=["TTLs 0..2^32-1 (uint32) are covered; RFC 2181's 'treat the top bit as zero' is not implemented by the code and not required by the property's range 0..2^31-1",
